@@ -87,6 +87,13 @@ func checkVariant(sc *bw.Scenario, w *world, cl *closure, res *vresult, out *sim
 					cls = "rules-rejected"
 				}
 			}
+			for _, d := range ds {
+				if cls == "spurious-error" && strings.Contains(d, "no available version") {
+					// the model found an offered version inside the allowed set: resolution is C17's subject
+					out.Violate("C17", "selected-versions", "allowed-version-not-found", fmt.Sprintf("variant %d: an offered version lies inside the allowed set, but the build says: %s", vi, simkit.CanonString(d)))
+					break
+				}
+			}
 			if cls == "spurious-error" {
 				out.Violate("C08", "fault-free-build-failed", cls, fmt.Sprintf("variant %d: no fault, model expects success, but the build failed: closeErr=%v diags=%s", vi, res.closeErr, simkit.CanonString(strings.Join(ds, " || "))))
 			}
